@@ -12,7 +12,7 @@ PROP = "C09"
 LEANCHECK_MODULES = ["Ivy.L2.Raw", "Ivy.L2.RawSpec", "Ivy.L2.RawProofs", "Ivy.Props.C09"]
 HARNESS = os.path.join(common.BUILD, "mt_c09")
 SCRATCH = os.path.join(common.BUILD, "scn")
-EXTRA_WRAPS = ["iv_fd_register", "iv_fd_unregister", "pipe"]
+EXTRA_WRAPS = ["iv_fd_register", "iv_fd_unregister", "pipe", "close"]
 TRANSPORTS = [("eventfd2", ""), ("eventfd-old", "noeventfd2"), ("pipe", "noeventfd")]
 EXCLUDES = ["", "exclude epoll-timerfd", "exclude epoll-timerfd epoll", "exclude epoll-timerfd epoll ppoll"]
 SIGS = [10, 12]
@@ -47,6 +47,9 @@ def oracle(log, rc=0, stderr=""):
             return ("harness", f"line {n}: {l}")
         elif rec == "FATAL":
             return ("fatal", f"line {n}: the library called iv_fatal: {' '.join(w[2:])[:120]}")
+        elif rec == "CLOSE-EBADF":
+            return ("double-close", f"line {n}: the library closed descriptor {w[2]} which is not open (closed twice): in a threaded program that number may "
+                    "already belong to another event object, whose posts are then lost")
         elif rec == "API" and w[2] == "rawRegister":
             pend_reg[t] = w[3]
         elif rec == "RET" and t in pend_reg:
@@ -588,6 +591,7 @@ def replay(path):
 
 # ---------------------------------------------------------------- oracle sanity: hand-written bad logs must be rejected
 _BAD_LOGS = {
+    "double-close": ["T0 API rawRegister r1", "T0 RET 0", "T0 API rawUnregister r1", "T0 CLOSE-EBADF fd=5", "T0 RET 0", "T0 FIN"],
     "lost-post": ["T0 API rawRegister r1", "T0 RET 0", "T0 API main", "T0 WAIT prim=poll to=-1", "T1 RAWPOST r1 owner=T0 n=1",
                   "T1 WRITE r1 fd=5 nonblock=1 ret=8 errno=0", "T1 RAWPOSTED r1", "T0 QUIESCENT T0:wait", "T0 FIN"],
     "lost-post#during-handler": ["T0 API rawRegister r1", "T0 RET 0", "T1 RAWPOST r1 owner=T0 n=1", "T1 WRITE r1 fd=5 nonblock=1 ret=8 errno=0",
